@@ -498,3 +498,14 @@ def check_class_level_mutables(rep, src, rule, modname, why, minimum=0):
     if n < minimum:
         raise AnalysisError('%s: only %d class-level containers found' % (modname, n))
     return n
+
+
+class SoftAll(SoftErrors):
+    """... for a *shape-based* reading (one that recognises how today's code is written): what it reports is an INFO line as long as the
+    interpreted scenarios of the same clause hold, whatever it reports"""
+
+    def fail(self, rule, site, construct, msg, detail=None, where=None):
+        if self._holds():
+            self._rep.info.append('%s %s: the shape-based reading reports "%s" -- not confirmed by %s' % (rule, site, msg[:200], self._what))
+        else:
+            self._rep.fail(rule, site, construct, msg, detail, where)
